@@ -109,9 +109,9 @@ func signAndEmit(m *dns.Msg, kp keyPair, cases int) {
 	}
 }
 
-// lightFor: P-384 verification costs milliseconds; sample its alterations.
+// lightFor: P-384 and large RSA keys cost up to milliseconds per check; sample their alterations.
 func lightFor(kp keyPair, mode int) int {
-	if kp.key.Algorithm == dns.ECDSAP384SHA384 || kp.key.Algorithm == dns.RSASHA512 {
+	if kp.key.Algorithm == dns.ECDSAP384SHA384 || sigLen(kp) >= 256 {
 		return modeLight
 	}
 	return mode
